@@ -158,6 +158,9 @@ V("c20-end-missing", "C20", TIKZ, "    source: str = \"\\n  \".join(lines) + \"\
 V("c20-pop-condition", "C20", SCHEM, "            if i > 0:\n                drawing.add(elm.Line(l=heights[i - 1]).up())\n                drawing.pop()", "            if i > 1:\n                drawing.add(elm.Line(l=heights[i - 1]).up())\n                drawing.pop()", "fire", "draw_parallel:push-pop")
 V("c20-latex-substitute", "C20", "circuit/circuit.py", "        return f\"Z = {latex(self.to_sympy(substitute=False))}\"", "        return f\"Z = {latex(self.to_sympy(substitute=True))}\"", "fire", "Circuit.to_latex:source")
 V("c20-sympy-skip-container", "C20", "circuit/series.py", "            if isinstance(element, Container) or isinstance(element, Connection):\n                expr += element.to_sympy(substitute=substitute, identifiers=identifiers)\n            elif isinstance(element, Element):", "            if isinstance(element, Container):\n                expr += element.to_sympy(substitute=substitute, identifiers=identifiers)\n            elif isinstance(element, Element):", "fire", "Series.to_sympy:silent-else")
+V("c20-tikz-extent-skips-parallel", "C20", TIKZ, "                for element in dimensions:\n                    if not element_connection.contains(element, top_level=True):\n                        continue\n\n                    ey = positions[element][1]", "                for element in dimensions:\n                    if type(element) is Parallel or not element_connection.contains(element, top_level=True):\n                        continue\n\n                    ey = positions[element][1]", "fire", "to_circuitikz:not-total")
+V("c20-tikz-short-wire-as-component", "C20", TIKZ, "                        r\"\\draw (<start_x>,<start_y>) to[short] (<end_x>,<end_y>);\",", "                        r\"\\draw (<start_x>,<start_y>) to[R=$w$] (<end_x>,<end_y>);\",", "fire", "to_circuitikz:components")
+V("c20-benign-tikz-extent-helper-names", "C20", TIKZ, "                    ey = positions[element][1]\n\n                    if start_y > 0.0 or ey > start_y:\n                        start_y = ey", "                    _ex, ey = positions[element]\n\n                    if start_y > 0.0 or ey > start_y:\n                        start_y = ey", "silent")
 V("c20-benign-reorder-arms", "C20", SCHEM, "            if isinstance(elem_con, Element):\n                draw_element(elem_con, drawing)\n            elif isinstance(elem_con, Series):\n                draw_series(elem_con, drawing)\n            elif isinstance(elem_con, Parallel):\n                draw_parallel(elem_con, drawing)\n            else:", "            if isinstance(elem_con, Series):\n                draw_series(elem_con, drawing)\n            elif isinstance(elem_con, Element):\n                draw_element(elem_con, drawing)\n            elif isinstance(elem_con, Parallel):\n                draw_parallel(elem_con, drawing)\n            else:", "silent")
 
 # ---------------------------------------------------------------- C08
